@@ -359,7 +359,10 @@ func C04(tier string) int {
 		if hi > len(cases) {
 			hi = len(cases)
 		}
-		type viol struct{ key, what string; rep M }
+		type viol struct {
+			key, what string
+			rep       M
+		}
 		var vs []viol
 		classes := map[string]struct{}{}
 		outc := map[string]int{}
@@ -511,7 +514,10 @@ func C04(tier string) int {
 		if iStart < 0 || iCB < 0 {
 			return
 		}
-		type viol struct{ key, what string; rep M }
+		type viol struct {
+			key, what string
+			rep       M
+		}
 		var vs []viol
 		n := 0
 		e := &mc.Explorer{}
